@@ -75,9 +75,7 @@ def build_workspace(mode="int"):
     w["PC"] = g.PointCollection([(1, 2, 3), (0, 1, -1), (2, 0, 1)], homogenize=True)
     w["L"] = g.Line(g.Point(1, 2, 3), g.Point(0, 1, -1))
     w["M"] = g.Line(g.Point(1, 2, 3), g.Point(2, 0, 1))
-    w["LC"] = g.LineCollection([g.Point(0, 0, 0), g.Point(1, 0, 0)], [g.Point(0, 0, 1), g.Point(1, 1, 1)]) \
-        if False else g.Line(g.PointCollection([(0, 0, 0), (1, 0, 0)], homogenize=True),
-                             g.PointCollection([(0, 0, 1), (1, 1, 1)], homogenize=True))
+    w["LC"] = g.join(g.PointCollection([(0, 0, 0), (1, 0, 0)], homogenize=True), g.PointCollection([(0, 0, 1), (1, 1, 1)], homogenize=True))
     w["E"] = g.Plane(g.Point(1, 2, 3), g.Point(0, 1, -1), g.Point(2, 0, 1))
     w["F"] = g.Plane(1, 0, -1, 2)
     w["EC"] = g.PlaneCollection([(1, 0, -1, 2), (0, 1, 1, -1), (1, 1, 1, -3)])
